@@ -155,7 +155,7 @@ pub fn c17(ctx: &mut Ctx) {
     }
 
     // ---- H1 + H2 + H3: randomised histories ----------------------------------------------
-    let n = if small { 40 } else { ctx.budget(30_000, 4_000_000) };
+    let n = if small { 40 } else { ctx.budget(30_000, 2_000_000) };
     let mut prev_rule: Option<usize> = None;
     let per_data = nd.max(1);
     for step in 0..n {
@@ -212,8 +212,8 @@ pub fn c17(ctx: &mut Ctx) {
     let shared: Arc<Vec<(Value, Value)>> = Arc::new(pool);
     let iso_keys: Arc<Vec<String>> = Arc::new(iso.iter().map(|x| x.key.clone()).collect());
     let iso_logs: Vec<Vec<String>> = iso.iter().map(|x| x.logs.clone()).collect();
-    let rounds = if small { 1 } else { ctx.budget(6, 200).max(1) };
-    let calls_per_thread = if small { 12 } else { ctx.budget(300, 3000) as usize };
+    let rounds = if small { 1 } else { ctx.budget(6, 40).max(1) };
+    let calls_per_thread = if small { 12 } else { ctx.budget(300, 1500) as usize };
     let mut signatures: BTreeMap<u64, u64> = BTreeMap::new();
     let mut total_switches = 0u64;
     for round in 0..rounds {
